@@ -416,6 +416,24 @@ def special_population_case(case):
         for a in agents:
             env.add_agent(a)
         tmpls = [(), ('I',), ('X',), ('I', 'X'), ('X', 'I'), ('I', 'I')]
+    elif case['how'] == 'foreign_component':
+        # component classes that do not derive from the library's Component (any object can be attached): a template naming
+        # such a type selects its carriers like any other type; a type nobody carries selects nobody
+        class Note:
+            def __init__(self, agent, model):
+                self.agent, self.model = agent, model
+
+        class Unused:
+            pass
+        types['N'], types['U'] = Note, Unused
+        env = m.environment
+        agents = [Core.Agent(k, m, tag=i % 2) for i, k in enumerate(('n', 'nx', 'x', 'none', 'xn'))]
+        for a, ts in zip(agents, ('N', 'NX', 'X', '', 'XN')):
+            for t in ts:
+                a.add_component(types[t](a, m))
+        for a in agents:
+            env.add_agent(a)
+        tmpls = [(), ('N',), ('X',), ('N', 'X'), ('X', 'N'), ('U',), ('U', 'X'), ('X', 'U'), ('N', 'N')]
     elif case['how'] == 'string_tags':
         # tags that are strings - some of them spelled like names in the process-wide tag library ('NONE' always is, 'SHEEP'
         # after Tags.add_tag('SHEEP')): a tag filter compares tags, it does not look names up
@@ -805,6 +823,7 @@ def run(ctx):
             return
     ctx.leg('class_churn_and_detached_env', cases=len(extra))
     for how in ('class_component', 'odd_agents', 'derived_types', 'compound_tags', 'falsy_tags', 'falsy_component', 'string_tags',
+                'foreign_component',
                 'many_types',
                 'long_templates',
                 'grid_unpositioned', 'space_unpositioned'):
